@@ -634,6 +634,43 @@ fn gen_glyphs_source(rng: &mut Rng, with_include: bool) -> String {
     s
 }
 
+/// Two masters; `peso` has `[150]` bracket layers, `yen` is a component of `peso` and has none (the loader
+/// must synthesize them), `won` is a component of `yen`: what Font::preprocess / align_bracket_layers acts on.
+fn gen_bracket_source(rng: &mut Rng) -> String {
+    let (w0, w1) = (40 + rng.range(0, 20), 200 + rng.range(0, 40));
+    let cut = rng.range(120, 170);
+    let rect = |x0: i64, y0: i64, x1: i64, y1: i64| format!("{{\nclosed = 1;\nnodes = (\n({x0},{y0},l),\n({x1},{y0},l),\n({x1},{y1},l),\n({x0},{y1},l)\n);\n}}");
+    let mut s = String::from("{\n.appVersion = \"3343\";\n.formatVersion = 3;\naxes = (\n{\nname = Weight;\ntag = wght;\n}\n);\n");
+    s.push_str(&format!("familyName = \"Bracket {}\";\nfontMaster = (\n", rng.below(1000)));
+    for (i, (id, w, name)) in [("m01", w0, "Thin"), ("m02", w1, "Bold")].iter().enumerate() {
+        if i > 0 {
+            s.push_str(",\n");
+        }
+        s.push_str(&format!("{{\naxesValues = (\n{w}\n);\nid = {id};\nmetricValues = (\n{{\npos = 800;\n}},\n{{\n}},\n{{\npos = -200;\n}},\n{{\npos = 700;\n}},\n{{\npos = 500;\n}}\n);\nname = {name};\n}}"));
+    }
+    s.push_str("\n);\nglyphs = (\n");
+    let a = rng.range(20, 60);
+    let bar = rng.range(300, 420);
+    // peso: plain layers, then bracket layers that add a bar
+    s.push_str("{\nglyphname = peso;\nlayers = (\n");
+    s.push_str(&format!("{{\nlayerId = m01;\nshapes = (\n{}\n);\nwidth = 600;\n}},\n", rect(a, 0, 400, 700)));
+    s.push_str(&format!("{{\nlayerId = m02;\nshapes = (\n{}\n);\nwidth = 640;\n}},\n", rect(a, 0, 460, 700)));
+    s.push_str(&format!(
+        "{{\nassociatedMasterId = m01;\nattr = {{\naxisRules = (\n{{\nmin = {cut};\n}}\n);\n}};\nlayerId = \"B1-{cut}\";\nname = \"Thin [{cut}]\";\nshapes = (\n{},\n{}\n);\nwidth = 600;\n}},\n",
+        rect(a, 0, 400, 700), rect(0, bar, 520, bar + 40)
+    ));
+    s.push_str(&format!(
+        "{{\nassociatedMasterId = m02;\nattr = {{\naxisRules = (\n{{\nmin = {cut};\n}}\n);\n}};\nlayerId = \"B2-{cut}\";\nname = \"Bold [{cut}]\";\nshapes = (\n{},\n{}\n);\nwidth = 640;\n}}\n);\nunicode = 8369;\n}},\n",
+        rect(a, 0, 460, 700), rect(0, bar, 580, bar + 80)
+    ));
+    let dx = rng.range(0, 40);
+    s.push_str(&format!("{{\nglyphname = yen;\nlayers = (\n{{\nlayerId = m01;\nshapes = (\n{{\npos = ({dx},0);\nref = peso;\n}}\n);\nwidth = 600;\n}},\n{{\nlayerId = m02;\nshapes = (\n{{\npos = ({dx},0);\nref = peso;\n}}\n);\nwidth = 640;\n}}\n);\nunicode = 165;\n}},\n"));
+    s.push_str("{\nglyphname = won;\nlayers = (\n{\nlayerId = m01;\nshapes = (\n{\nref = yen;\n}\n);\nwidth = 600;\n},\n{\nlayerId = m02;\nshapes = (\n{\nref = yen;\n}\n);\nwidth = 640;\n}\n);\nunicode = 8361;\n},\n");
+    s.push_str("{\nglyphname = space;\nlayers = (\n{\nlayerId = m01;\nwidth = 200;\n},\n{\nlayerId = m02;\nwidth = 220;\n}\n);\nunicode = 32;\n}\n);\n");
+    s.push_str("metrics = (\n{\ntype = ascender;\n},\n{\ntype = baseline;\n},\n{\ntype = descender;\n},\n{\ntype = \"cap height\";\n},\n{\ntype = \"x-height\";\n}\n);\nunitsPerEm = 1000;\nversionMajor = 1;\nversionMinor = 0;\n}\n");
+    s
+}
+
 // =============================================================== routes
 fn repo_root() -> PathBuf {
     // the harness depends on the fontc crate by path: the CLI is built from the same tree
@@ -1045,7 +1082,7 @@ fn check_design(name: &str, text: &str, disk_path: &Path, has_include: bool, ref
         rep.viols.push(Viol {
             key: "glyphs-file-vs-memory-font-differs",
             desc: format!("{name}: compiling the .glyphs file and compiling the same text from memory differ: {}", describe_diff(&r_file, &r_mem)),
-            extra: json!({"design": name, "file": brief(&r_file), "memory": brief(&r_mem)}),
+            extra: json!({"design": name, "path": disk_path, "file": brief(&r_file), "memory": brief(&r_mem), "text": text.chars().take(12000).collect::<String>()}),
         });
     }
     let doc = match read_doc(text) {
@@ -1323,10 +1360,17 @@ fn main() {
     let mut picks: Vec<usize> = (0..corpus.len()).collect();
     rng.shuffle(&mut picks);
     // always keep the sources with a unicode list and the package twins
+    // fixed, never sampled: sources with a unicode list, the package twins, and everything the loader's
+    // preprocessing pass acts on (bracket layers reached through components, smart components, corner
+    // components), so that every container is compared on sources whose Font is rewritten after reading
     let must = |p: &Path| {
         let s = p.to_string_lossy();
-        s.contains("Unicode-") || s.ends_with("glyphs3/WghtVar.glyphs") || s.ends_with("glyphs2/WghtVar.glyphs") || s.contains("infinity")
+        ["Unicode-", "infinity", "racket", "Smart", "Corner", "AxisRules", "Brace", "IntermediateLayer", "AlumniSans-wononly"].iter().any(|k| s.contains(k))
+            || s.ends_with("glyphs3/WghtVar.glyphs")
+            || s.ends_with("glyphs2/WghtVar.glyphs")
     };
+    let n_must = corpus.iter().filter(|p| must(p)).count();
+    let want = want.max(n_must + 8).min(corpus.len());
     picks.sort_by_key(|&i| if must(&corpus[i]) { 0 } else { 1 });
     for &i in picks.iter().take(want) {
         let p = &corpus[i];
@@ -1346,6 +1390,14 @@ fn main() {
         fs::write(&path, &text).unwrap();
         gen_paths.push(path.clone());
         jobs.push(Job { name: format!("generated/gen{k}.glyphs"), text, path, include, seed: rng.next() });
+    }
+    let n_br = if thorough { 8 } else { 2 };
+    for k in 0..n_br {
+        let text = gen_bracket_source(&mut rng);
+        let path = gen_dir.join(format!("bracket{k}.glyphs"));
+        fs::write(&path, &text).unwrap();
+        gen_paths.push(path.clone());
+        jobs.push(Job { name: format!("generated/bracket{k}.glyphs"), text, path, include: false, seed: rng.next() });
     }
     let rounds = if thorough { 3 } else { 1 };
     let reports: Mutex<Vec<(usize, DesignReport)>> = Mutex::new(Vec::new());
@@ -1427,7 +1479,7 @@ fn main() {
         let td = repo.join("resources/testdata");
         let mut srcs: Vec<PathBuf> = gen_paths.iter().filter(|p| !p.to_string_lossy().contains("gen2.") && !p.to_string_lossy().contains("gen5.")).cloned().collect();
         for s in ["glyphs3/WghtVar.glyphs", "glyphs3/WghtVar.glyphspackage", "glyphs2/WghtVar.glyphspackage", "glyphs3/NestedComponent.glyphs", "glyphs3/PropagateAnchorsTest.glyphs",
-                  "glyphs3/CornerComponents.glyphs", "glyphs3/ProductionNames.glyphs", "glyphs2/Component.glyphs", "wght_var.designspace", "WghtVar-Regular.ufo", "static.designspace"] {
+                  "glyphs3/CornerComponents.glyphs", "glyphs3/SmartComponents.glyphs", "glyphs3/glyph-with-bracket-component.glyphs", "glyphs2/SmartComponent.glyphs", "glyphs3/ProductionNames.glyphs", "glyphs2/Component.glyphs", "wght_var.designspace", "WghtVar-Regular.ufo", "static.designspace"] {
             let p = td.join(s);
             if p.exists() {
                 srcs.push(p);
@@ -1635,6 +1687,8 @@ fn main() {
         "designs": reports.len(), "corpus_available": corpus.len(), "design_compiles": g_compiles, "designs_font": g_fonts, "designs_error": g_errors,
         "reformat_rounds": g_reformats, "unicode_layout_cases": x_cases, "unicode_layout_failures": x_fail,
         "harness_reader_failed": reader_failed, "package_not_split": not_split,
+        "designs_not_compiling": reports.iter().filter(|r| r.1.classes.iter().any(|(k, c)| k == "memory" && *c != "font")).map(|r| r.1.name.clone()).collect::<Vec<_>>(),
+        "designs_fixed_preprocess_sensitive": reports.iter().filter(|r| ["racket", "Smart", "Corner", "AxisRules", "Brace"].iter().any(|k| r.1.name.contains(k))).count(),
         "cli_runs": c_runs, "cli_options_logged": c_logged, "input_new_cases": i_cases, "ufo_cases": u_cases, "ufo_with_skip_export": u_skip,
         "unicode_entries_protected": PROTECT_UNICODE.load(std::sync::atomic::Ordering::SeqCst), "cli_built": build_ok, "wall_s": t0.elapsed().as_secs(), "t_plist_s": t_p, "t_designs_s": t_g - t_p, "t_wait_build_s": t_b - t_g, "t_cli_s": t_c - t_b, "t_ufo_s": t0.elapsed().as_secs_f64() - t_c,
         "extra_evaluations": g_compiles + c_runs * 2 + u_cases * 3 + p_pairs,
